@@ -221,6 +221,11 @@ pub fn storage_has(c: &Address, d: u8, k: &Val) -> bool {
 pub fn storage_set(c: &Address, d: u8, k: &Val, v: &Val) {
     raw_set(c.0, d, k, v)
 }
+/// Seeds the entry only if `cond`; the record is appended either way (under an unused contract id
+/// when `!cond`) so that the storage log counter stays a constant for the symbolic executor.
+pub fn storage_set_if(cond: bool, c: &Address, d: u8, k: &Val, v: &Val) {
+    raw_set(if cond { c.0 } else { 0xFFFF_FFF0 }, d, k, v)
+}
 
 // ------------------------------------------------------------------ nondeterministic builders
 #[cfg(kani)]
